@@ -99,7 +99,7 @@ CHECKS = {
             "publish creates one per kind. Fine-grained model Conc.FabFine (one step per q.append, Python list-iterator "
             "semantics, subscribes interleaved with a delivery loop): C06_fine_at_most_once / exactly_once / order for every "
             "schedule, witness for a list-rewriting _subscribe; subscribe is one step because of the fabric's subscription "
-            "lock (generated tag). Tie: real fabric threads under the deterministic scheduler, per step (families fab, fabfine).",
+            "lock (generated tag). Tie: real fabric threads under the deterministic scheduler, per step (families fab, fabfine). Model Conc.SubFine (subscribe per registry access, any threads): no duplicates, nothing lost, the registry equals the calls executed atomically in lock-acquisition order (and that atomic call is Fab.Registry.subscribe), resubscribing changes nothing; witnesses for a narrowed lock and for no lock; tied step by step (family subfine, generated tag fabSubscribeCoversAppend).",
             "§8 C06", NOTE_CONC),
     "C08": ("Lean 4 proofs: the binary heap under PriorityQueue (CPython's sift algorithms transcribed) keeps the heap condition and "
             "pops the (priority, sequence) minimum; it refines the list model; draining is sorted",
@@ -176,7 +176,7 @@ CHECKS = {
     "C21": ("Lean 4 proof over operation lists (no clock parameter in the model) + correspondence under scripted clocks",
             "Theorems: every step hands exactly its step log to the live-spy callback, in order; live trace receives "
             "exactly the records appended, each once; trace = ring(liveTrace). The model has no time parameter (generated "
-            "tag liveTraceById). Tie: real runs with fine, coarse, constant and backwards clocks.", "§8 C21", NOTE_L1),
+            "tag liveTraceById). Tie: real runs with fine, coarse, constant and backwards clocks. Model Instr.HandOver (callbacks that register another callback during the hand-over): every line once, in order, to the callback registered at that moment; witness for a hoisted look-up (generated tag liveSpyReadsCallbackEachLine).", "§8 C21", NOTE_L1),
     "C25": ("Lean 4 proofs: sequential registry laws + lock invariant over all schedules; lock-granularity replay and bytecode-granularity search",
             "Theorems: numbering is injective, positive, stable; name_for_signal inverts it; the inner signals are the "
             "generated ten; concurrent append under the registry lock keeps the dictionary well formed in every schedule "
@@ -210,7 +210,7 @@ CHECKS = {
             "several requests per thread): every returned object is the one initialised object, nobody gets None, failed objects are "
             "never cached or returned, every request finishes, a later request constructs; witnesses for publish-before-initialise; "
             "tied step by step (one step per shared access, program counter compared before every step; generated tag "
-            "singletonPublishesEarly).", "§8 C30", NOTE_CONC),
+            "singletonPublishesEarly). Model Conc.SingleNested (a singleton first requested from inside the constructors of other singletons): one object per decorator, every requester holds THE inner object, no deadlock; witness for a nested request that skips the lock; tied step by step (family singlenested, generated tag singletonNestedSkipsLock).", "§8 C30", NOTE_CONC),
     "C32": ("Lean 4 proofs about a character-level model of splitlines/strip/the timestamp pattern + string correspondence",
             "Theorems: the matcher removes the timestamp of every trace line (any padding), multi-line traces strip to "
             "their bodies whatever timestamps / blank lines / surrounding whitespace, a single line likewise (generated "
